@@ -25,6 +25,9 @@ pub enum Input {
     Gen(ModuleSet),
     /// a real-world module file of the repository's corpus (absolute path)
     Corpus(String),
+    /// several corpus files whose top-level names and module names are pairwise disjoint
+    /// (over-approximate token scan), handed over as separate sources in a permuted order
+    CorpusSet(Vec<String>),
 }
 
 #[derive(Clone, Debug, Serialize, Deserialize, PartialEq, Default)]
@@ -146,7 +149,46 @@ pub fn input_texts(input: &Input, arr: &Arrangement) -> Vec<String> {
     match input {
         Input::Gen(set) => arrange(set, arr),
         Input::Corpus(path) => vec![std::fs::read_to_string(path).unwrap_or_default()],
+        Input::CorpusSet(paths) => {
+            let order: Vec<usize> = if arr.module_order.len() == paths.len() { arr.module_order.clone() } else { (0..paths.len()).collect() };
+            order.iter().map(|i| std::fs::read_to_string(&paths[*i]).unwrap_or_default()).collect()
+        }
     }
+}
+
+/// Over-approximate set of the names a corpus file defines: every identifier that stands one
+/// or two tokens before a `::=`, plus every identifier directly before `DEFINITIONS` (module
+/// names, prefixed with "module:"). Over-approximation only excludes more sets.
+pub fn defined_names(text: &str) -> std::collections::BTreeSet<String> {
+    let mut names = std::collections::BTreeSet::new();
+    let toks: Vec<&str> = text
+        .split(|c: char| !(c.is_alphanumeric() || c == '-' || c == ':' || c == '=' || c == '_'))
+        .filter(|t| !t.is_empty())
+        .collect();
+    for (i, t) in toks.iter().enumerate() {
+        if t.contains("::=") {
+            let head = t.split("::=").next().unwrap_or("");
+            if !head.is_empty() {
+                names.insert(head.to_string());
+            }
+            for k in 1..=3 {
+                if i >= k {
+                    names.insert(toks[i - k].to_string());
+                }
+            }
+        }
+        if *t == "DEFINITIONS" && i >= 1 {
+            names.insert(format!("module:{}", toks[i - 1]));
+            if i >= 2 {
+                names.insert(format!("module:{}", toks[i - 2]));
+            }
+        }
+    }
+    // words that are keywords, not names
+    for kw in ["INTEGER", "SEQUENCE", "OF", "SET", "CHOICE", "BEGIN", "DEFINITIONS", "TAGS", "IMPLICIT", "EXPLICIT", "AUTOMATIC", "STRING", "OCTET", "BIT", "BOOLEAN", "OBJECT", "IDENTIFIER", "ENUMERATED", "CLASS", "NULL", "IMPLIED", "EXTENSIBILITY"] {
+        names.remove(kw);
+    }
+    names
 }
 
 fn parse_plan(v: &Value) -> Plan {
@@ -200,6 +242,31 @@ impl Scenario for C11Threads {
             inputs.push(Input::Corpus(env.corpus[a].clone()));
             if w.chance(1, 2) {
                 inputs.push(Input::Corpus(w.pick(&env.corpus).clone()));
+            } else if w.chance(1, 2) {
+                // a multi-file set of real-world modules with pairwise disjoint names
+                let first = env.corpus[a].clone();
+                let small = |p: &String| std::fs::metadata(p).map(|m| m.len()).unwrap_or(u64::MAX) < 120_000;
+                if small(&first) {
+                    let mut chosen = vec![first.clone()];
+                    let mut names = defined_names(&std::fs::read_to_string(&first).unwrap_or_default());
+                    for _ in 0..12 {
+                        if chosen.len() >= 3 {
+                            break;
+                        }
+                        let cand = w.pick(&env.corpus).clone();
+                        if chosen.contains(&cand) || !small(&cand) {
+                            continue;
+                        }
+                        let n2 = defined_names(&std::fs::read_to_string(&cand).unwrap_or_default());
+                        if names.is_disjoint(&n2) {
+                            names.extend(n2);
+                            chosen.push(cand);
+                        }
+                    }
+                    if chosen.len() >= 2 {
+                        inputs.push(Input::CorpusSet(chosen));
+                    }
+                }
             }
         }
         let n_gen = if use_corpus { w.below(2) } else { 1 + w.below(2) };
@@ -248,6 +315,7 @@ impl Scenario for C11Threads {
                 let arr = match &inputs[input] {
                     Input::Gen(set) => random_arrangement(set, &mut w),
                     Input::Corpus(_) => Arrangement::default(),
+                    Input::CorpusSet(paths) => Arrangement { assign_perms: vec![], module_order: w.permutation(paths.len()), groups: vec![] },
                 };
                 h.push(Op {
                     input,
@@ -441,6 +509,7 @@ impl Scenario for C11Threads {
                 };
                 let what = match &p.inputs[op.input] {
                     Input::Corpus(pth) => format!("corpus file {}", pth.rsplit('/').next().unwrap_or("")),
+                    Input::CorpusSet(ps) => format!("corpus set {:?} in source order {:?}", ps.iter().map(|p| p.rsplit('/').next().unwrap_or("")).collect::<Vec<_>>(), op.arr.module_order),
                     Input::Gen(set) => format!("generated set #{} ({} modules) arrangement {:?}", op.input, set.modules.len(), op.arr),
                 };
                 let ctx = format!("thread {t} op {k} on {what}, backend {}, files={}, {} threads, strategy {:?}", op.backend.short(), op.files, p.ops.len(), p.sim.strategy);
@@ -507,14 +576,20 @@ impl Scenario for C11Threads {
         if p.inputs.iter().any(|i| matches!(i, Input::Corpus(_))) {
             out.count("runs_with_corpus_input", 1);
         }
+        if p.inputs.iter().any(|i| matches!(i, Input::CorpusSet(_))) {
+            out.count("probe.runs_with_multi_file_corpus_set", 1);
+        }
         if compared_ok > 0 {
             let plan_sig = fnv1a(serde_json::to_string(&p.ops).unwrap().as_bytes()) ^ fnv1a(serde_json::to_string(&p.inputs).unwrap().as_bytes());
             out.sigs.push(mix(plan_sig, rep.sched.sig));
         }
         out.log_hash = fnv1a(format!("{}|{digest}|{:?}", rep.log_text, out.violations).as_bytes());
+        if std::env::var("DSIM_DEBUG_LOG").is_ok() {
+            let _ = std::fs::write(format!("/dev/shm/dsim/log-{}-{}.txt", p.seed, std::process::id()), &rep.log_text);
+        }
         out.sample = Some(json!({
             "threads": p.ops.len(), "ops_per_thread": p.ops.iter().map(|h| h.len()).collect::<Vec<_>>(),
-            "inputs": p.inputs.iter().map(|i| match i { Input::Corpus(p) => format!("corpus:{}", p.rsplit('/').next().unwrap_or("")), Input::Gen(s) => format!("generated:{}mod/{}asg", s.modules.len(), s.n_assigns()) }).collect::<Vec<_>>(),
+            "inputs": p.inputs.iter().map(|i| match i { Input::CorpusSet(ps) => format!("corpus-set:{}", ps.len()), Input::Corpus(p) => format!("corpus:{}", p.rsplit('/').next().unwrap_or("")), Input::Gen(s) => format!("generated:{}mod/{}asg", s.modules.len(), s.n_assigns()) }).collect::<Vec<_>>(),
             "strategy": format!("{:?}", p.sim.strategy), "context_switches": rep.sched.switches, "switches_inside_compilation": rep.sched.switches_inside,
             "schedule_prefix": rep.sched.schedule.iter().take(40).collect::<Vec<_>>(),
         }));
